@@ -28,11 +28,12 @@ theorem hostCall_good {β} (hN : ∀ s', Done1 s0 s' → N s') (pre : M (HostOp 
   | halt r o s' => rw [hp] at hpre; exact .pure (.halt (sat_halt_inv hpre))
   | fault f => rw [hp] at hpre; exact (sat_fault_inv hpre).elim
 
-theorem hostCallAction_good {β} (hA : ∀ a s', ActRel s0 a s' → A a s') (pre : M (HostOp × β))
+theorem hostCallAction_good {β} {QA : Action → IState → Prop} (hA : ∀ a s', QA a s' → A a s')
+    (pre : M (HostOp × β))
     (post : β → HostResp → M Action) (P : β → IState → Prop)
     (hpre : Exec.Sat (pre s0) (Halt s0) (fun p s' => P p.2 s'))
     (hpost : ∀ b s' r, P b s' → RespOk r →
-      Exec.Sat (post b r s') (Halt s0) (fun a s'' => ActRel s0 a s'')) :
+      Exec.Sat (post b r s') (Halt s0) (fun a s'' => QA a s'')) :
     GoodP (Halt s0) N A (hostCallAction pre post s0) := by
   unfold hostCallAction
   cases hp : pre s0 with
@@ -40,7 +41,7 @@ theorem hostCallAction_good {β} (hA : ∀ a s', ActRel s0 a s' → A a s') (pre
     obtain ⟨op, b⟩ := p
     rw [hp] at hpre
     have hb := sat_ok_inv hpre
-    exact .host (fun r hr => toDoneActionP hA (hpost b s' r hb hr))
+    exact .host (fun r hr => toDoneActionQ hA (hpost b s' r hb hr))
   | halt r o s' => rw [hp] at hpre; exact .pure (.halt (sat_halt_inv hpre))
   | fault f => rw [hp] at hpre; exact (sat_fault_inv hpre).elim
 
